@@ -51,13 +51,21 @@ func Contention(seed int64, index int, tier string) *spec.Case {
 		c.Objects.PriorityClasses = append(c.Objects.PriorityClasses, &schedulingv1.PriorityClass{ObjectMeta: metav1.ObjectMeta{Name: pc.n}, Value: pc.v})
 	}
 
+	// pattern "blocked head" (half of the cases): every organisation below its quota is exactly one device short of it
+	// and its oldest pending job is too big for that device while a younger one fits - the head job decides how the
+	// organisation / department is ordered, the younger one is the job that can actually reclaim. These cases are
+	// kept canonical (one node, quotas that add up, mostly two organisations and one priority).
+	blockedHead := r.IntN(2) == 0
+	uniformPrio := blockedHead && r.IntN(10) < 7
+	c.Meta["pattern"] = map[bool]string{true: "blocked-head", false: "random"}[blockedHead]
+
 	// ---- nodes
 	G := pk(3, 4, 5, 5, 6, 8)
 	if tier == "thorough" && r.IntN(4) == 0 {
 		G += pk(2, 4, 8)
 	}
 	split := []int{G}
-	if G >= 4 && r.IntN(3) == 0 {
+	if G >= 4 && r.IntN(3) == 0 && !(blockedHead && r.IntN(5) != 0) {
 		a := 2 + r.IntN(G-3)
 		split = []int{a, G - a}
 	}
@@ -73,11 +81,14 @@ func Contention(seed int64, index int, tier string) *spec.Case {
 
 	// ---- queue forest
 	nOrg := pk(2, 2, 3)
+	if blockedHead {
+		nOrg = pk(2, 2, 2, 3)
+	}
 	if nOrg > G {
 		nOrg = G
 	}
 	quotas := composition(r, G, nOrg) // org quotas sum to the capacity
-	if r.IntN(5) == 0 {               // sometimes the quotas do not add up
+	if r.IntN(5) == 0 && !blockedHead { // sometimes the quotas do not add up
 		quotas[r.IntN(nOrg)] += pk(-1, 1)
 		for i := range quotas {
 			if quotas[i] < 0 {
@@ -118,7 +129,7 @@ func Contention(seed int64, index int, tier string) *spec.Case {
 		}
 		// bottom level: 1-2 leaf queues sharing the organisation's quota
 		nl := 1
-		if depth > 1 && r.IntN(2) == 0 {
+		if depth > 1 && (r.IntN(2) == 0 || (blockedHead && r.IntN(3) == 0)) {
 			nl = 2
 		}
 		if nl == 1 {
@@ -127,12 +138,13 @@ func Contention(seed int64, index int, tier string) *spec.Case {
 			leaves = append(leaves, &leaf{name, o, oq})
 		} else {
 			a := float64(r.IntN(quotas[o] + 1))
-			if r.IntN(3) == 0 {
-				a = oq // both leaves may use the whole quota of the department
+			whole := r.IntN(2) == 0 || (blockedHead && r.IntN(2) == 0) // both leaves may use the whole quota of the department
+			if whole {
+				a = oq
 			}
 			for i, lq := range []float64{a, oq - a} {
-				if a == oq && i == 1 {
-					lq = pf(0, oq)
+				if whole && i == 1 {
+					lq = pf(0, oq, oq, oq)
 				}
 				name := fmt.Sprintf("%s%d%c", chain[depth-1], o, 'a'+i)
 				mkQueue(name, parent, lq, pf(1, 1, 2))
@@ -190,9 +202,15 @@ func Contention(seed int64, index int, tier string) *spec.Case {
 	over := r.IntN(nOrg)
 	run := make([]int, nOrg)
 	left := G - pk(0, 0, 0, 1)
+	if blockedHead {
+		left = G
+	}
 	for o := 0; o < nOrg; o++ {
 		if o != over {
 			run[o] = quotas[o] - pk(0, 1, 1, 2)
+			if blockedHead {
+				run[o] = quotas[o] - 1
+			}
 			if run[o] < 0 {
 				run[o] = 0
 			}
@@ -203,15 +221,24 @@ func Contention(seed int64, index int, tier string) *spec.Case {
 		left = 0
 	}
 	run[over] = left
-	prio := func() string { return ps("p-train", "p-train", "p-train", "p-train", "p-low", "p-mid") }
+	prio := func() string {
+		if uniformPrio {
+			return "p-train"
+		}
+		return ps("p-train", "p-train", "p-train", "p-train", "p-low", "p-mid")
+	}
 	for o := 0; o < nOrg; o++ {
 		ls := leavesOf(o)
 		for n := run[o]; n > 0; {
 			g := 1
-			if n >= 2 && r.IntN(4) == 0 {
+			if n >= 2 && r.IntN(4) == 0 && !blockedHead {
 				g = 2
 			}
-			if !workload(ls[r.IntN(len(ls))].name, g, prio(), true, time.Duration(600+wid)*time.Minute) {
+			l := ls[r.IntN(len(ls))]
+			if blockedHead && len(ls) == 2 {
+				l = ls[1] // the running work of a starved department sits in its second leaf queue
+			}
+			if !workload(l.name, g, prio(), true, time.Duration(600+wid)*time.Minute) {
 				if g == 1 {
 					break
 				}
@@ -228,6 +255,9 @@ func Contention(seed int64, index int, tier string) *spec.Case {
 			n = pk(0, 0, 1)
 		}
 		bigFirst := r.IntN(2) == 0
+		if blockedHead && o != over {
+			n, bigFirst = pk(2, 2, 3), true
+		}
 		for i := 0; i < n; i++ {
 			g := pk(1, 1, 2, 2, 3)
 			if bigFirst && i == 0 {
@@ -238,8 +268,16 @@ func Contention(seed int64, index int, tier string) *spec.Case {
 			if g > G {
 				g = G
 			}
+			l := ls[r.IntN(len(ls))]
+			if blockedHead && len(ls) == 2 && o != over {
+				// the big job in the first leaf queue, the small ones next to the running work (or all in one queue)
+				l = ls[1]
+				if i == 0 && r.IntN(4) != 0 {
+					l = ls[0]
+				}
+			}
 			// jobs are created in index order: the first one is the oldest
-			workload(ls[r.IntN(len(ls))].name, g, prio(), false, time.Duration(300-10*i-o)*time.Minute)
+			workload(l.name, g, prio(), false, time.Duration(300-10*i-o)*time.Minute)
 		}
 	}
 	return c
